@@ -414,12 +414,13 @@ Definition run_specjson_import (args : list sexp) : bytes :=
   | _ => bad
   end.
 
-(* (marshal <mspec> <gty> <gval>): Marshal into a fresh message, observe, pack, Unmarshal into the zero value *)
+(* (marshal <mspec> <gty> <gval> [<gval>]): Marshal into a fresh message, observe, pack, Unmarshal into the zero value
+   or into the given pre-filled target *)
 Definition run_marshal (args : list sexp) : bytes :=
   match args with
-  | [ms; ty; v] =>
-      match parse_mspec ms, parse_gty ty, parse_gval v with
-      | Some MS, Some t, Some gv =>
+  | ms :: ty :: v :: more =>
+      match parse_mspec ms, parse_gty ty, parse_gval v, (match more with [] => Some None | [tg] => option_map Some (parse_gval tg) | _ => None end) with
+      | Some MS, Some t, Some gv, Some target =>
           match m_marshal MS (mfresh MS) t gv with
           | (_, Panic _) => S' "panic"
           | (_, OutOfFuel) => S' "outoffuel"
@@ -430,7 +431,10 @@ Definition run_marshal (args : list sexp) : bytes :=
               | (_, OutOfFuel) => S' "outoffuel"
               | (m2, r2) =>
                   let o2 := match r2 with Ok w => S' "ok " ++ show_hex w | _ => S' "err" end in
-                  let zero := match t with TPtr inner => VPtr (Some (g_zero inner)) | _ => g_zero t end in
+                  let zero := match target with
+                              | Some tg => tg
+                              | None => match t with TPtr inner => VPtr (Some (g_zero inner)) | _ => g_zero t end
+                              end in
                   match m_unmarshal MS m2 t zero with
                   | Panic _ => S' "panic"
                   | OutOfFuel => S' "outoffuel"
@@ -438,7 +442,7 @@ Definition run_marshal (args : list sexp) : bytes :=
                   end
               end
           end
-      | _, _, _ => bad
+      | _, _, _, _ => bad
       end
   | _ => bad
   end.
